@@ -8,10 +8,14 @@
    NOT proved (no refutation known on the current tree; before fix 884aa7b both were refuted through `roughly`):
      C09_merge_exact : forall a b m v, merge D f a b = MOk m -> valid m v -> valid a v /\ valid b v
      C09_merge_all_perm : Permutation L L' -> valid (merge_all L) v = valid (merge_all L') v
-   What is proved for ALL schemas of a fragment and ALL instances is `_partial`: the scalar fragment
-   [sfrag] (type lists without `number`, enum/const of non-float scalars, number/string validation;
-   no format / array / object / subschema / $ref keywords), for merge and for merge_all on lists.
-   The object / array / $ref part of the model is tied to the real code by K1 only. *)
+   What is proved for ALL schemas of a fragment and ALL instances is `_partial`:
+     - the scalar fragment [sfrag] (type lists without `number`, enum/const of non-float scalars,
+       number/string validation; nothing else), for merge and for merge_all on lists;
+     - the object fragment [ofrag] (nested objects with required, additionalProperties absent/true/false,
+       min/maxProperties over scalar leaves, under the side conditions listed at the theorem), for merge and
+       merge_all: no-narrower, never-soundness and closure, by induction on the merge fuel.
+   Outside: additionalProperties schemas, array items, $ref + roughly, oneOf distribution — modelled and
+   tied to the real code by K1, not verified. *)
 From Coq Require Import String ZArith NArith QArith List Bool Permutation.
 From Typify Require Import Base.Json Spec.Schema Spec.Valid IR.TypeIR IR.Serde
      Algo.Merge Check.Uninhabited Proofs.ValidProofs Proofs.MergeProofs.
@@ -77,6 +81,38 @@ Theorem C09_merge_all_sound_partial :
     end.
 Proof. exact merge_all_scalar_sound. Qed.
 
+(* ---------------------------------------------------------------- typify's merge (model), object fragment
+   [ofrag] (Algo/Merge.v), hereditarily: objects with properties (nested), required, additionalProperties
+   absent/true/false, min/maxProperties, scalar leaves as in [sfrag]; side conditions (each one is the
+   complement of a refutation witness / finding): no `number` type (F1), no format, enum/const of non-float
+   scalars, no array keywords (F5), additionalProperties not a schema (F6: deferred allOf wrapper), every
+   object keyword group guarded by "type":"object" (C09_merge_never_refuted_untyped), no $ref /
+   allOf / anyOf / oneOf / not inside the members.  For ALL such a, b, ALL instances, ALL fuels:
+   Ok => the result is in the fragment and no narrower than the conjunction; Never => the conjunction is empty. *)
+Theorem C09_merge_obj_sound_partial :
+  forall (re_match fmt_ok : ustring -> ustring -> bool) (o : vopts) (DV : defs) (n : nat)
+         (D : defs) (f : nat) (a b : schema),
+    ofrag a = true -> ofrag b = true ->
+    match merge D f a b with
+    | MOk m => ofrag m = true /\
+               forall v, validx re_match fmt_ok o DV n a v = true -> validx re_match fmt_ok o DV n b v = true ->
+                         validx re_match fmt_ok o DV n m v = true
+    | MNever => forall v, validx re_match fmt_ok o DV n a v = true -> validx re_match fmt_ok o DV n b v = true -> False
+    | _ => True
+    end.
+Proof. exact merge_ofrag_sound. Qed.
+
+Theorem C09_merge_all_obj_sound_partial :
+  forall (re_match fmt_ok : ustring -> ustring -> bool) (o : vopts) (DV : defs) (n : nat)
+         (D : defs) (f : nat) (v : json) (L : list schema),
+    Forall (fun s => ofrag s = true) L ->
+    match merge_all D f L with
+    | MOk m => Forall (fun s => validx re_match fmt_ok o DV n s v = true) L -> validx re_match fmt_ok o DV n m v = true
+    | MNever => Forall (fun s => validx re_match fmt_ok o DV n s v = true) L -> False
+    | _ => True
+    end.
+Proof. exact merge_all_ofrag_sound. Qed.
+
 (* ---------------------------------------------------------------- refuted on the faithful model *)
 (* finding C09-F1 *)
 Theorem C09_merge_never_refuted_int_number :
@@ -124,6 +160,20 @@ Example C09_scalar_example_never :
   merge [] 3 (ty_only [TString]) (ty_only [TObject]) = MNever
   /\ sfrag (ty_only [TString]) = true /\ sfrag (ty_only [TObject]) = true.
 Proof. exact scalar_example_never. Qed.
+
+Example C09_obj_example_ok :
+  let a := obj_of [([97%N], ty_only [TString])] [] None in
+  let b := obj_of [([98%N], ty_only [TInteger])] [] (Some (SBool false)) in
+  ofrag a = true /\ ofrag b = true /\
+  exists m, merge [] 4 a b = MOk m /\ ofrag m = true
+            /\ Vd [] 0 m (JObj [([98%N], JInt 1)]) = true /\ Vd [] 0 m (JObj [([97%N], JStr [])]) = false.
+Proof. exact obj_example_ok. Qed.
+
+Example C09_obj_example_never :
+  let a := obj_of [([97%N], ty_only [TString])] [[97%N]] None in
+  let b := obj_of [([98%N], ty_only [TInteger])] [] (Some (SBool false)) in
+  ofrag a = true /\ ofrag b = true /\ merge [] 4 a b = MNever.
+Proof. exact obj_example_never. Qed.
 
 (* the empty enum of convert_never is uninhabited *)
 Example C09_never_type_uninhabited :
